@@ -97,12 +97,18 @@ def enumerate_cases(tier):
         # quick: one family per Stratonovich cell (rotating with the seed), every family for Ito cells (the corrected Ito
         # adjoint drift is the delicate part); thorough: every family everywhere
         if tier == "quick" and pair["sde_type"] != "ito":
-            fams = [fams[(seed + idx) % len(fams)]]
+            # (the reversible pair always gets the first family: nonlinear where the noise type has one)
+            fams = [fams[0 if pair["adjoint_method"] == "adjoint_reversible_heun" else (seed + idx) % len(fams)]]
         for fam, phi in fams:
             n_out = rnd.choice([1, 1, 2, 4])
             mask = [rnd.choice([1, 1, 0]) for _ in range(n_out)]
             if not any(mask):
                 mask[rnd.randrange(n_out)] = 1
+            if pair["adjoint_method"] == "adjoint_reversible_heun" and (fam, phi) == fams[0]:
+                # the pair that carries solver state through the backward pass always also gets a loss that ignores the
+                # last output time(s)
+                n_out = max(n_out, 2)
+                mask = [1] + [rnd.choice([1, 0]) for _ in range(n_out - 2)] + [0]
             yield {"kind": "converge", "pair": pair, "spec": _spec_from(rnd, pair["sde_type"], pair["noise_type"], fam, phi),
                    "t0": rnd.choice([0.0, 0.5]), "T": rnd.choice([0.5, 1.0]), "entropy": rnd.randrange(2 ** 31 - 2),
                    "y0seed": rnd.randrange(2 ** 31), "wseed": rnd.randrange(2 ** 31), "n_out": n_out, "mask": mask,
